@@ -20,7 +20,7 @@ let parse_label (t : string) : label =
            | 'r' -> Register | 'n' -> Enter | 'h' -> HeadPart | 'q' -> ReqModStart
            | 't' -> RTStart | 's' -> ResModStart | 'e' -> ResModEnd | 'd' -> Decide
            | 'w' -> WriteDone | 'X' -> SockClose | 'f' -> Done
-           | 'F' -> WriteFail | 'G' -> CliGone
+           | 'F' -> WriteFail | 'G' -> CliGone | 'E' -> CResModEnd
            | _ -> failwith ("bad token " ^ t)) in
          Conn (num 1 n, k))
 
